@@ -30,3 +30,4 @@ import s2_found as found
 found.register(globals(), {"C03"}, ["empty_map_in_branch", "caught_then_outer_fails", "three_levels", "inner_join_failure", "raw_start_events"])
 
 found.register(globals(), {"C03"}, ["map_selector_failure"])
+found.register(globals(), {"C03", "C02"}, ["orphan_dropped_beside_waiting"])
